@@ -247,9 +247,51 @@ fn describe_datagram(data: &[u8], tsi: u64) -> Option<String> {
         cenc,
         sct,
         hex(&data[pkt.data_alc_header_offset..pkt.data_payload_offset]),
-        hex(&data[pkt.data_payload_offset..]),
+        // the payload of a flood datagram (tens of kB of zeros, never decoded) is not spelled out:
+        // the model accounts the datagram by its length
+        if data.len() - pkt.data_payload_offset > 4096 { String::new() } else { hex(&data[pkt.data_payload_offset..]) },
         data.len()
     ))
+}
+
+/// a copy of an FDT packet carrying instance id `id`, WITHOUT its EXT_FTI and with `len` payload bytes:
+/// the receiver can only cache it (no OTI), per instance id, up to the 1 MiB limit of the FDT object
+fn fdt_flood_pkt(template: &[u8], id: u32, len: usize) -> Option<Vec<u8>> {
+    let c = ((template[0] >> 2) & 3) as usize;
+    let s = ((template[1] >> 7) & 1) as usize;
+    let o = ((template[1] >> 5) & 3) as usize;
+    let h = ((template[1] >> 4) & 1) as usize;
+    let ext_off = 4 + (c + 1) * 4 + s * 4 + h * 2 + o * 4 + h * 2;
+    let hdr_len = (template[2] as usize) * 4;
+    if ext_off > hdr_len || hdr_len > template.len() {
+        return None;
+    }
+    let mut out = template[..ext_off].to_vec();
+    let mut p = ext_off;
+    let mut has_fdt = false;
+    while p + 4 <= hdr_len {
+        let het = template[p];
+        let l = if het >= 128 { 4 } else { (template[p + 1] as usize) * 4 };
+        if l == 0 || p + l > hdr_len {
+            return None;
+        }
+        if het == 192 {
+            // EXT_FDT: version nibble kept, 20-bit instance id replaced
+            out.extend_from_slice(&[192, (template[p + 1] & 0xF0) | ((id >> 16) & 0x0F) as u8, (id >> 8) as u8, id as u8]);
+            has_fdt = true;
+        } else if het != 64 {
+            out.extend_from_slice(&template[p..p + l]);
+        }
+        p += l;
+    }
+    if !has_fdt {
+        return None;
+    }
+    out[2] = (out.len() / 4) as u8;
+    out.extend_from_slice(&[0, 0, 0, 0]); // FEC payload id (sbn 0, esi 0)
+    out.extend(std::iter::repeat(0u8).take(len));
+    flute::core::alc::parse_alc_pkt(&out).ok().filter(|q| q.lct.toi == 0 && q.oti.is_none())?;
+    Some(out)
 }
 
 fn instance_desc(xml: &[u8]) -> String {
@@ -718,6 +760,19 @@ fn channel(kind: &str, seed: u64, arg: u64, g: &[Vec<u8>]) -> Vec<Vec<u8>> {
             // bit i of arg set = packet i is delivered
             v = v.into_iter().enumerate().filter(|(i, _)| *i < 64 && (arg >> i) & 1 == 1).map(|(_, p)| p).collect();
         }
+        "fdtflood" => {
+            // after the genuine packets: `arg` FDT instance ids, each flooded with 19 FTI-less datagrams of
+            // 60 kB (more than the 1 MiB the FDT object may cache): every one of these instances fails
+            if let Some(t) = v.iter().find(|p| matches!(flute::core::alc::parse_alc_pkt(p), Ok(ref q) if q.lct.toi == 0 && q.fdt_info.is_some())).cloned() {
+                for k in 0..arg {
+                    for _ in 0..19 {
+                        if let Some(d) = fdt_flood_pkt(&t, 0x400 + k as u32, 60000) {
+                            v.push(d);
+                        }
+                    }
+                }
+            }
+        }
         "nofdt" | "holes" | "holesb" | "halffdt" => {
             // nofdt: no TOI-0 packet at all; holes: the symbol with ESI = arg of every block is lost
             // (holesb: and the packet carrying the close-object flag, so that the object stalls);
@@ -1050,7 +1105,7 @@ fn gen_mem(args: &Args, emit: &mut dyn FnMut(String)) {
         let cache = *rng.pick(&[64u64, 256, 1024, 4096, 10485760]);
         let maxerr = *rng.pick(&[0u32, 1, 3]);
         let (fec, par) = if rng.chance(1, 3) { ("rs28", 1) } else { ("nocode", 0) };
-        let scenario = if nobj >= 3 { rng.below(7) } else { rng.below(6) };
+        let scenario = if i % 60 == 59 { 7 } else if nobj >= 3 { rng.below(7) } else { rng.below(6) };
         let (fti, xk, xa, extra, ev): (u32, &str, u64, String, String) = match scenario {
             // packets without FTI and no FDT: everything is cached
             0 => (0, "nofdt", 0, String::new(), String::new()),
@@ -1069,6 +1124,9 @@ fn gen_mem(args: &Args, emit: &mut dyn FnMut(String)) {
                 let n = rng.range(5, 60);
                 (0, "nofdt", 0, " otimeout=25".to_string(), format!(" ; E sleep@{}:60,cleanup@{}", n, n))
             }
+            // FDT instances that fail WITHOUT ever getting a writer (no EXT_FTI, cache overflow) must be
+            // released by the cleanup after the time-out like the others
+            7 => (1, "fdtflood", 70, " otimeout=25".to_string(), " ; E sleepend:60,cleanup@end".to_string()),
             // an object stalls, later objects bring new FDT instances at intervals shorter than the
             // time-out: the stalled ones must still be released (only their own packets are activity)
             _ => {
@@ -1232,10 +1290,12 @@ fn gen_carousel(args: &Args, emit: &mut dyn FnMut(String)) {
         // content encodings too: announced in-band or only in the FDT, with or without a Content-MD5
         let cenc = if ci % 3 == 2 { *rng.pick(&["zlib", "gzip", "deflate"]) } else { "null" };
         let head = format!(
-            "V fec={} e={} b={} par={} cenc={} fti={} icenc={} mode={} il={} once=1 maxerr=0 cache=10485760 md5=1 tc=1 bld=S opn=1 car={} fcar={} idlems=300 maxpk={} ; {}",
+            "V fec={} e={} b={} par={} cenc={} fti={} icenc={} mode={} il={} once=1 maxerr=0 cache=10485760 md5=1 tc=1 bld=S opn=1 car={} fcar={} idlems=300 maxpk={}{} ; {}",
             fec, e, b, par, cenc, rng.below(2), rng.below(2),
             if rng.chance(1, 2) { "full" } else { "bt" },
             rng.range(1, 3), car, *rng.pick(&[0u32, 40, 100]), if thorough { 400 } else { 260 },
+            // one object at a time in half of the configurations (transfers that never overlap)
+            if ci % 2 == 1 { " pq=0:1" } else { "" },
             osecs.join(" ; ")
         );
         // join offsets: every packet index of (roughly) the first cycle
@@ -1245,6 +1305,17 @@ fn gen_carousel(args: &Args, emit: &mut dyn FnMut(String)) {
                 continue;
             }
             emit(format!("{} ; X late 1 {}", head, off));
+        }
+        // and joins in LATER cycles (a sender that announces an object only during its first
+        // transfer is invisible to the joins above): a longer recording, sparser offsets
+        let head_long = head.replace(&format!("maxpk={}", if thorough { 400 } else { 260 }), "maxpk=700");
+        let mut off = if thorough { 80 } else { 50 };
+        while off < 260 {
+            n += 1;
+            if n % args.shard.1 == args.shard.0 {
+                emit(format!("{} ; X late 1 {}", head_long, off));
+            }
+            off += if thorough { 5 } else { 13 };
         }
     }
 }
